@@ -12,6 +12,9 @@ import sys
 from checks import common
 
 MODULES = ["c01", "c02", "c03", "c04", "c05", "c06", "c07", "c08", "c09", "c10", "c11", "c12", "c13", "c14", "c15", "c16", "c17", "c18", "c19", "c20"]
+import os as _os
+if _os.environ.get("SELFTEST_ONLY"):
+    MODULES = _os.environ["SELFTEST_ONLY"].split(",")
 
 
 def _run(args):
@@ -25,7 +28,7 @@ def digests(modname, cases, nproc):
     out = {}
     with common.Pool(nproc) as pool:
         for (m, case), d in pool.map(_run, [(modname, c) for c in cases]):
-            out[json.dumps(case, sort_keys=True)] = d
+            out[json.dumps(case, sort_keys=True, default=repr)] = d
     return out
 
 
